@@ -141,11 +141,11 @@ func VfC03_Memory() {
 	b.NewExtractValue(agg, 1, 0)
 	b.NewInsertValue(agg, x, 0)
 	// index paths whose indices differ from level to level
-	ev := b.NewExtractValue(agg, 2, 0)                                   // i8
-	b.NewAdd(ev, constant.NewInt(types.I8, 1))                           // the use prints the result type
-	ev2 := b.NewExtractValue(agg, 2, 2, 1)                               // i16
+	ev := b.NewExtractValue(agg, 2, 0)         // i8
+	b.NewAdd(ev, constant.NewInt(types.I8, 1)) // the use prints the result type
+	ev2 := b.NewExtractValue(agg, 2, 2, 1)     // i16
 	b.NewAdd(ev2, constant.NewInt(types.I16, 1))
-	b.NewInsertValue(agg, constant.NewInt(types.I64, 5), 2, 1)           // well-typed: i64 into field 2.1
+	b.NewInsertValue(agg, constant.NewInt(types.I64, 5), 2, 1) // well-typed: i64 into field 2.1
 	b.NewInsertValue(agg, constant.NewInt(types.I16, 5), 2, 2, 1)
 	h.n += 11
 	e := b.NewExtractElement(v, one)
@@ -447,4 +447,70 @@ func VfC03_DeepFunclets() {
 	cpad := cl.NewCleanupPad(constant.None)
 	cl.NewCleanupRet(cpad, nil)
 	hC03Deep(m, f)
+}
+
+// VfC03_DeepModule: module-level entities (global variables, alias, ifunc,
+// declared and defined functions), each one named or unnamed (forked), built
+// through the module builder methods; the printed text is accepted by the
+// parser and the re-parsed module has the same entities with the same
+// identifiers, types and initialisers, in the same lists.
+//
+//vf:unwind 600
+//vf:steps 200000000
+//vf:shards 16
+func VfC03_DeepModule() {
+	mask := vfChoice("unnamed.mask", 64) // bit i set: entity i is unnamed
+	nm := func(i int, s string) string {
+		if mask>>uint(i)&1 == 1 {
+			return ""
+		}
+		return s
+	}
+	a := hLetterIn("a", 'a', 'e')
+	m := ir.NewModule()
+	g1 := m.NewGlobalDef(nm(0, a+"1"), constant.NewInt(types.I32, int64(vfByte("k")&7)))
+	g2 := m.NewGlobalDef(nm(1, a+"2"), g1)
+	decl := m.NewFunc(nm(2, a+"3"), types.NewPointer(types.NewFunc(types.I32)))
+	def := m.NewFunc(nm(3, a+"4"), types.I32, ir.NewParam("", types.I32))
+	b := def.NewBlock("")
+	v := b.NewAdd(def.Params[0], constant.NewInt(types.I32, 1))
+	ld := b.NewLoad(types.I32, g1)
+	b.NewRet(b.NewAdd(v, ld))
+	al := m.NewAlias(nm(4, a+"5"), g1)
+	ifn := m.NewIFunc(nm(5, a+"6"), decl)
+	// LLVM's verifier ("IFunc resolver has incorrect type", calibrated with
+	// llvm-as 14): the resolver returns a pointer to the ifunc's function type,
+	// i.e. the ifunc's own (pointer) type is the resolver's return type
+	vfAssert("C03.deepmodule.ifunc-type-is-resolved-function-type", hGenTy(ifn.Type(), decl.Sig.RetType))
+	_ = g2
+	vfReach("C03.deepmodule.built")
+	s := m.String()
+	vfObserveStr("printed", s)
+	m2, err := ParseString("t.ll", s)
+	vfAssert("C03.deepmodule.reparses", err == nil)
+	if err != nil {
+		return
+	}
+	vfAssert("C03.deepmodule.same-shape", vfAnd(vfAnd(len(m2.Globals) == 2, len(m2.Funcs) == 2), vfAnd(len(m2.Aliases) == 1, len(m2.IFuncs) == 1)))
+	if len(m2.Globals) != 2 || len(m2.Funcs) != 2 || len(m2.Aliases) != 1 || len(m2.IFuncs) != 1 {
+		return
+	}
+	for i := range m.Globals {
+		x, y := m.Globals[i], m2.Globals[i]
+		vfAssert("C03.deepmodule.global", vfAnd(vfEqStr(x.Ident(), y.Ident()), vfAnd(hGenTy(x.ContentType, y.ContentType), hGenVal(x.Init, y.Init))))
+	}
+	for i := range m.Funcs {
+		x, y := m.Funcs[i], m2.Funcs[i]
+		vfAssert("C03.deepmodule.func", vfAnd(vfEqStr(x.Ident(), y.Ident()), vfAnd(hGenTy(x.Sig, y.Sig), len(x.Blocks) == len(y.Blocks))))
+	}
+	vfAssert("C03.deepmodule.alias", vfAnd(vfEqStr(al.Ident(), m2.Aliases[0].Ident()), hGenVal(al.Aliasee, m2.Aliases[0].Aliasee)))
+	vfAssert("C03.deepmodule.ifunc", vfAnd(vfEqStr(ifn.Ident(), m2.IFuncs[0].Ident()), hGenVal(ifn.Resolver, m2.IFuncs[0].Resolver)))
+	all, all2 := hC03All(def), hC03All(m2.Funcs[1])
+	vfAssert("C03.deepmodule.same-count", len(all) == len(all2))
+	if len(all) == len(all2) {
+		for i := range all {
+			vfAssert("C03.deepmodule.same-instruction", hGenSame(all[i], all2[i]))
+		}
+	}
+	vfAssert("C03.deepmodule.fixpoint", m2.String() == s)
 }
